@@ -140,6 +140,64 @@ def package_vars(v4):
             res.append((os.path.relpath(f, v4) + ':' + name, kind))
     return ["Definition package_vars : list (string * string) := [\n  %s]." % ';\n  '.join('(%s, %s)' % (coq_string(n), coq_string(k)) for n, k in res)]
 
+FOOT_STUB = """(* GENERATED by tools/genparams.py: tools/gofootprint could not be built or run - do not edit. *)
+From Coq Require Import List String Bool.
+Import ListNotations.
+Open Scope string_scope.
+Definition foot_tool_ok : bool := false.
+Definition foot_tool_error : string := %s.
+Definition foot_fields : list (string * string * string) := [].
+Definition foot_class_mutable : list (string * string * string) := [].
+Definition foot_foreign_writes : list (string * string * string) := [].
+Definition foot_shared_edges : list (string * string) := [].
+Definition foot_pkgvars : list (string * string) := [].
+Definition foot_pkgvar_writers : list (string * string * string * string) := [].
+Definition foot_pkgvar_unguarded : list (string * string * string) := [].
+Definition foot_exported_vars : list string := [].
+Definition foot_accessors : list (string * string * (bool * bool * bool * bool)) := [].
+Definition foot_methods : list (string * string * string * (list string * list string * list string * list string)) := [].
+Definition foot_escapes : list (string * string) := [].
+Definition foot_verif_exported_vars : list string := [].
+Definition foot_verif_pkgvar_unguarded : list (string * string * string) := [].
+Definition foot_verif_pkgvars : list (string * string) := [].
+"""
+
+def footprint(root, outp):
+    """Static footprint facts of C19 (coq/ParamsFoot.v, next to Params.v): tools/gofootprint (go/ast + go/types over the
+    non-test files of v4/{agent,collection,cdcn} and v4/Module.go, once without and once with the build tag verif).
+    The full report with source positions goes to build/footprint.json (used by the driver for replay files).
+    A failure of the tool itself never breaks the common build: a stub with foot_tool_ok = false is written, which
+    only the C19 obligations in coq/IndepStatic.v (compiled by ./check C19) reject."""
+    import subprocess
+    here = os.path.dirname(os.path.abspath(__file__))
+    build = os.path.join(os.path.dirname(here), 'build')
+    os.makedirs(build, exist_ok=True)
+    foot = os.path.join(os.path.dirname(os.path.abspath(outp)), 'ParamsFoot.v')
+    binp = os.path.join(build, 'gofootprint')
+    env = dict(os.environ, GOFLAGS='-mod=mod', GOPROXY='off', GOSUMDB='off', GOTOOLCHAIN='local', CGO_ENABLED='0')
+    err = None
+    try:
+        p = subprocess.run(['timeout', '300', 'go', 'build', '-o', binp, '.'], cwd=os.path.join(here, 'gofootprint'), env=env,
+                           stdout=subprocess.PIPE, stderr=subprocess.STDOUT, text=True)
+        if p.returncode != 0:
+            err = 'go build of tools/gofootprint failed: ' + p.stdout[-400:]
+        else:
+            p = subprocess.run(['timeout', '300', binp, '-coq', foot, '-json', os.path.join(build, 'footprint.json'), os.path.join(root, 'v4')],
+                               env=env, stdout=subprocess.PIPE, stderr=subprocess.STDOUT, text=True)
+            if p.returncode != 0:
+                err = 'tools/gofootprint failed: ' + p.stdout[-400:]
+            else:
+                print(p.stdout.strip().split('\n')[0])
+    except OSError as e:
+        err = 'tools/gofootprint could not be run: %s' % e
+    if err is not None:
+        text = FOOT_STUB % coq_string(' '.join(err.split()))
+        old = read(foot) if os.path.exists(foot) else None
+        if old != text:
+            with open(foot, 'w', encoding='utf-8') as f:
+                f.write(text)
+        print('gofootprint: FAILED (stub written): ' + ' '.join(err.split())[:300])
+
 def main():
     root, outp = sys.argv[1], sys.argv[2]
     v4 = os.path.join(root, 'v4')
@@ -231,6 +289,7 @@ def main():
         print("genparams: wrote", outp)
     else:
         print("genparams: unchanged")
+    footprint(root, outp)
 
 if __name__ == '__main__':
     main()
